@@ -33,6 +33,16 @@ int main()
 		std::string first; is >> first;
 		if (first == "v") { ull L, code, cp; is >> L >> code >> cp; unitVertices(L, code, cp); fflush(stdout); continue; }
 		if (first == "p") { ull L, cp, code, a1, a2; is >> L >> cp >> code >> a1 >> a2; if (L == 4) unitLookup<4>(cp, code, a1, a2); else unitLookup<8>(cp, code, a1, a2); fflush(stdout); continue; }
+		if (first == "b")
+		{	// the real UIntMath<uint8_t>::SetBit / GetBit on an 8-byte array: b <initial bytes as a 64-bit value> <bit index>
+			ull v, i; is >> v >> i; uint8_t d[8];
+			for (int k = 0; k < 8; ++k) d[k] = uint8_t(v >> (8 * k));
+			internal::UIntMath<uint8_t>::SetBit(d, size_t(i));
+			std::string o;
+			for (int k = 0; k < 8; ++k) o += std::to_string(unsigned(d[k])) + " ";
+			for (size_t j = 0; j < 64; ++j) o += internal::UIntMath<uint8_t>::GetBit(d, j) ? '1' : '0';
+			puts(o.c_str()); fflush(stdout); continue;
+		}
 		if (first == "c") { ull v, m; is >> v >> m; printf("%llu\n", ull(internal::UIntMath<>::Ceil(size_t(v), size_t(m)))); continue; }
 		ull L = std::strtoull(first.c_str(), nullptr, 10), keep; is >> keep;
 		std::vector<std::vector<ColSpec>> ops; std::vector<ColSpec> extras; std::vector<ull> universe;
